@@ -331,13 +331,20 @@ static void run_line(char *line) {
         vh_flow_tick(f);
         snap_M(f); snap_E(f); snap_T(f);
         end_input();
-    } else if (!strcmp(op, "KR")) {                      /* KR i n ms: n times (advance ms, tick) */
+    } else if (!strcmp(op, "KR")) {                      /* KR i n ms [j]: n times (advance ms, [tick j,] tick i) */
         vp_iface *f = ifc_of(tok[1]);
         long n = atol(tok[2]);
         uint64_t step = strtoull(tok[3], NULL, 0);
+        vp_iface *g = nt > 4 ? ifc_of(tok[4]) : NULL;    /* the daemon's loop ticks every interface in turn */
         vh_flow_ensure(f);
+        if (g) vh_flow_ensure(g);
         for (long k = 0; k < n; k++) {
             vp_now_ms += step;
+            if (g) {
+                begin_input("K", g);
+                vh_flow_tick(g);
+                end_input();
+            }
             begin_input("K", f);
             vh_flow_tick(f);
             snap_M(f); snap_E(f); snap_T(f);
